@@ -280,7 +280,7 @@ func C04BusyObject() {
 	sym.Quiesce()
 	before := len(v.hostile.sentMessages())
 	posts := sym.Choose("queued-are-posts", 2) == 1
-	n := 3
+	n := []int{3, 14}[sym.Choose("queued-calls", 2)] // 14: the mailbox (10 slots) is full and the connection is waiting on it
 	if posts {
 		n = 24 // more than connection queue (10) + mailbox (10) hold
 	}
@@ -290,6 +290,10 @@ func C04BusyObject() {
 	}
 	for i := 0; i < n; i++ {
 		v.hostile.inject(zzFrame(typ, v.sid, id, 1000, uint32(200+i), nil))
+		if !posts && i == 9 {
+			// first wave: the mailbox is now full; the second wave finds the connection waiting on it
+			sym.Quiesce()
+		}
 	}
 	sym.Quiesce()
 	removed := false
@@ -315,4 +319,42 @@ func C04BusyObject() {
 	}
 	_ = removed
 	sym.Reach("busy-done")
+}
+
+// C04LargeArgsInFlight: two calls with large (70000 / 69000-byte) arguments on one connection, the
+// first still executing when the second is read: what the first method was given is still ITS
+// arguments (nothing the connection reads later may alter them), and the second gets its own.
+func C04LargeArgsInFlight() {
+	sym.SetMaxMaterialise(1 << 18)
+	v := newZZVictim(0)
+	v.obj.gate = make(chan struct{})
+	argA := make([]byte, 70000)
+	argB := make([]byte, 69000)
+	argA[0], argA[68999], argA[69999] = sym.U8("a-first"), sym.U8("a-middle"), sym.U8("a-last")
+	argB[0], argB[68999] = sym.U8("b-first"), sym.U8("b-last")
+	v.hostile.inject(zzFrame(net.Call, v.sid, 1, 1000, 100, argA))
+	sym.Quiesce()
+	v.hostile.inject(zzFrame(net.Call, v.sid, 1, 1000, 101, argB))
+	sym.Quiesce()
+	v.obj.seenMu.Lock()
+	seen := append([]*net.Message(nil), v.obj.seen...)
+	v.obj.seenMu.Unlock()
+	sym.Assert(len(seen) >= 1, "large-in-flight/first-call-reached-the-method")
+	if len(seen) >= 1 {
+		p := seen[0].Payload
+		sym.Assert(len(p) == 70000, "large-in-flight/first-arguments-length")
+		if len(p) == 70000 {
+			sym.Assert(sym.And(p[0] == argA[0], sym.And(p[68999] == argA[68999], p[69999] == argA[69999])), "large-in-flight/first-arguments-altered-while-executing")
+		}
+	}
+	close(v.obj.gate)
+	sym.Quiesce()
+	v.obj.seenMu.Lock()
+	seen = append([]*net.Message(nil), v.obj.seen...)
+	v.obj.seenMu.Unlock()
+	sym.Assert(len(seen) == 2, "large-in-flight/both-calls-executed")
+	if len(seen) == 2 && len(seen[1].Payload) == 69000 {
+		sym.Assert(sym.And(seen[1].Payload[0] == argB[0], seen[1].Payload[68999] == argB[68999]), "large-in-flight/second-arguments")
+	}
+	sym.Reach("large-in-flight-done")
 }
